@@ -151,3 +151,11 @@ func vfB2I(b bool) int {
 	}
 	return 0
 }
+
+// engine-only observers (native replay of the harnesses using them is disabled)
+func vfPackets() int              { return 0 }
+func vfPacketName(i int) string   { return "" }
+func vfPacketAddr(i int) string   { return "" }
+func vfPacketBytes(i int) []byte  { return nil }
+func vfSetLocalNode(n any)        {}
+func vfSetNumMembers(n int)       {}
